@@ -3,12 +3,16 @@ import vlib, gen, gen_prog
 from gen_prog import FLAG, run_line, parse_obs, head
 
 
-def program_pool(ctx, n_fuzz, n_unknown=40, guards=True, flags_for_guards=(0,)):
-    """(p_tt, e_tt, tag) triples: fuzz-generated, hand-shaped, unknown operators, calibrated guards"""
+def program_pool(ctx, n_fuzz, n_unknown=40, guards=True, flags_for_guards=(0,), n_optest=None, optest_only=None):
+    """(p_tt, e_tt, tag) triples: fuzz-generated, the repository's operator vectors as programs,
+    hand-shaped, unknown operators, calibrated guards around a sample of the former"""
     r = ctx.rng
     pool = []
     fz = gen_prog.fuzz_programs(r, n_fuzz)
     pool += [(p, e, "fuzz") for p, e in fz]
+    ot = gen_prog.optest_programs(r, n_optest if n_optest is not None else max(60, n_fuzz // 3), only=optest_only)
+    pool += [(p, e, "optest:" + nm) for p, e, nm in ot]
+    fz = fz + [(p, e) for p, e, _ in ot]
     pool += [(p, e, "shape") for p, e in gen_prog.small_programs(r)]
     pool += [(p, e, "unknown") for p, e in gen_prog.unknown_op_programs(r, n_unknown)]
     if guards and fz:
@@ -16,7 +20,7 @@ def program_pool(ctx, n_fuzz, n_unknown=40, guards=True, flags_for_guards=(0,)):
             for p, e, meta in gen_prog.guarded_programs(r, fz, f, n=max(20, n_fuzz // 10)):
                 pool.append((p, e, "guard[f=%d %s]" % (f, meta)))
     for _, _, tag in pool:
-        ctx.histogram("program_source", tag.split("[")[0])
+        ctx.histogram("program_source", tag.split("[")[0].split(":")[0])
     return pool
 
 
